@@ -624,7 +624,16 @@ func decodeMergedField(c pdf.Cursor, ref pdf.Reference, dict pdf.Dict, ctx inher
 	fcom.Widgets = append(fcom.Widgets, w)
 	w.Field = f
 	fc, ac := pdf.StoreOrLoadPair[acroform.Field, annotation.Annotation](c.Extractor(), ref, f, w)
-	return fc, ac.(*annotation.Widget), nil
+	aw := ac.(*annotation.Widget)
+	if fc == f && aw != w {
+		// The widget half was already cached on its own (read from a page,
+		// where the field type could not be determined), so only the field
+		// half was published.  Link the published field to the cached
+		// widget, the way decodeTerminal links pure widget kids.
+		aw.Field = f
+		fcom.Widgets[len(fcom.Widgets)-1] = aw
+	}
+	return fc, aw, nil
 }
 
 // isMergedFieldDict reports whether a dictionary is a form field merged with its
